@@ -14,10 +14,11 @@ import (
 type c12path struct {
 	Placement int      `json:"new_session_node"`
 	Chain     bool     `json:"third_connection"`
+	Skew      int      `json:"new_session_node_clock_offset_s"`
 	Events    []string `json:"events"`
 }
 
-var c12events = []string{"c1-ping", "c1-sub", "c1-disconnect", "c1-drop", "c2-sub", "deliver-0", "deliver-1", "deliver-2", "deliver-all"}
+var c12events = []string{"c1-ping", "c1-sub", "c1-disconnect", "c1-drop", "c2-sub", "c2-disconnect", "c2-drop", "deliver-0", "deliver-1", "deliver-2", "deliver-all"}
 
 func c12paths() []c12path {
 	var out []c12path
@@ -30,11 +31,15 @@ func c12paths() []c12path {
 			return
 		}
 		gone := used["c1-disconnect"] || used["c1-drop"]
+		gone2 := used["c2-disconnect"] || used["c2-drop"]
 		for _, e := range c12events {
 			if used[e] {
 				continue
 			}
 			if gone && strings.HasPrefix(e, "c1-") {
+				continue
+			}
+			if gone2 && strings.HasPrefix(e, "c2-") {
 				continue
 			}
 			used[e] = true
@@ -45,9 +50,13 @@ func c12paths() []c12path {
 	rec(nil, map[string]bool{})
 	for _, pl := range []int{1, 2} {
 		for _, s := range seqs {
-			out = append(out, c12path{pl, false, s})
+			out = append(out, c12path{pl, false, 0, s})
 			if vk.Thorough() && len(s) <= 3 {
-				out = append(out, c12path{pl, true, s})
+				out = append(out, c12path{pl, true, 0, s})
+			}
+			// the accepting node's clock behind / ahead of the first session's node
+			if pl == 2 && (len(s) <= 3 || vk.Thorough()) {
+				out = append(out, c12path{pl, false, -30, s}, c12path{pl, false, 30, s})
 			}
 		}
 	}
@@ -74,17 +83,34 @@ func TestC12Takeover(t *testing.T) {
 				w.Step() // proviso: the earlier session's record is gossiped everywhere
 				s1 := c1.SessionID
 				w.GossipAuto = false
-				c2 := w.NewClient("c2", p.Placement, AckAll)
+				skew := time.Duration(p.Skew) * time.Second
+				onNode2 := func(f func()) { // events addressed to the new session's node run under its clock
+					w.SetClockOffset(skew)
+					f()
+					w.SetClockOffset(0)
+				}
+				var c2 *Client
+				onNode2(func() {
+				c2 = w.NewClient("c2", p.Placement, AckAll)
 				if rc := c2.Connect(ConnectOpts{ClientID: "X", KeepAlive: 600}); rc != 0 {
 					viol("c12-new-session-refused", "the second connection with the same client identifier got CONNACK %d", rc)
 					return
 				}
-				s2 := c2.SessionID
 				w.Step()
+				})
+				if c2.SessionID == "" {
+					return
+				}
+				s2 := c2.SessionID
 				c1Gone := false
+				c2Gone := false
 				pings := 0
 				had := map[string]bool{} // node:entry of c2 that some node listed at some point
 				deliveredS2 := p.Placement == 1
+				// with offset clocks "newest record" is only decidable once the removal of the old record has
+				// arrived as well (the new record may carry the smaller timestamp): the intermediate oracle then
+				// waits for both messages; clock offsets are outside C12's quantifier, the final oracles still apply
+				gotNew, gotOldRemoval := false, false
 				deliver := func(k int) bool {
 					w.DrainGossip()
 					if k >= len(w.Pending) {
@@ -96,10 +122,17 @@ func TestC12Takeover(t *testing.T) {
 						if n.ID != m.From {
 							w.Deliver(k, n.ID)
 							if n.ID == 1 {
-								for _, key := range ks {
-									if key == "session:"+s2 {
-										deliveredS2 = true
+								_ = ks
+								for id, live := range decodeSessions(m.Payload) {
+									if id == s2 && live {
+										gotNew = true
 									}
+									if id == s1 && !live {
+										gotOldRemoval = true
+									}
+								}
+								if gotNew && (p.Skew == 0 || gotOldRemoval) {
+									deliveredS2 = true
 								}
 							}
 						}
@@ -122,6 +155,9 @@ func TestC12Takeover(t *testing.T) {
 							}
 						}
 						for k := range had {
+							if c2Gone {
+								break // the new session ended on its own: its state is expected to go
+							}
 							if strings.HasPrefix(k, fmt.Sprintf("%d:", n.ID)) && !cur[k] {
 								viol("c12-new-session-state-removed", "after %s node %d no longer lists %s of the new session %s", stage, n.ID, k, s2)
 								return false
@@ -131,7 +167,7 @@ func TestC12Takeover(t *testing.T) {
 							had[k] = true
 						}
 					}
-					if c2.BrokerClosed() || w.Node(p.Placement).Local.Get(s2) == nil {
+					if !c2Gone && (c2.BrokerClosed() || w.Node(p.Placement).Local.Get(s2) == nil) {
 						viol("c12-new-session-ended", "after %s the new session is no longer served", stage)
 						return false
 					}
@@ -148,6 +184,17 @@ func TestC12Takeover(t *testing.T) {
 						if c1Gone {
 							return
 						}
+						// what c1's node has been told by now, read from its listing (not from the lookup under test):
+						// the old record is gone, or (clocks in step) another live record carries the same client id
+						oldListed, newerListed := false, false
+						for _, md := range w.Node(1).DState.SessionMetadatas().All() {
+							if md.SessionID == s1 {
+								oldListed = true
+							} else if md.ClientID == "X" {
+								newerListed = true
+							}
+						}
+						deliveredS2 = !oldListed || (p.Skew == 0 && newerListed)
 						c1.Ping()
 						pings++
 						w.Step()
@@ -189,12 +236,30 @@ func TestC12Takeover(t *testing.T) {
 						w.Step()
 						c1Gone = true
 					case "c2-sub":
-						c2.Subscribe(mid, 0, "new/#")
-						w.Step()
+						if c2Gone {
+							return
+						}
+						onNode2(func() {
+							c2.Subscribe(mid, 0, "new/#")
+							w.Step()
+						})
 						if c2.Count("SUBACK") == 0 {
 							viol("c12-new-session-not-served", "the new session's SUBSCRIBE got no SUBACK")
 							return
 						}
+					case "c2-disconnect", "c2-drop":
+						if c2Gone {
+							return
+						}
+						onNode2(func() {
+							if ev == "c2-disconnect" {
+								c2.Disconnect()
+							} else {
+								c2.Drop()
+							}
+							w.Step()
+						})
+						c2Gone = true
 					case "deliver-0", "deliver-1", "deliver-2":
 						var idx int
 						fmt.Sscanf(ev, "deliver-%d", &idx)
@@ -238,6 +303,9 @@ func TestC12Takeover(t *testing.T) {
 				w.DeliverAll(false)
 				Observe(w, rep)
 				for _, n := range w.Nodes {
+					if c2Gone && !p.Chain {
+						break // the newest session left on its own: nothing has to resolve
+					}
 					md, err := n.DState.SessionMetadatas().ByClientIDInMountPoint("_default", "X")
 					if err != nil {
 						viol("c12-client-id-unresolved", "after all gossip was delivered node %d resolves client id X to nothing (%v); view %s", n.ID, err, n.View())
@@ -248,7 +316,7 @@ func TestC12Takeover(t *testing.T) {
 						return
 					}
 				}
-				if w.Node(lastNode).Local.Get(last) == nil {
+				if !(c2Gone && !p.Chain) && w.Node(lastNode).Local.Get(last) == nil {
 					viol("c12-new-session-ended", "the newest session is not registered on its node at the end")
 					return
 				}
